@@ -15,8 +15,9 @@ Python modelled
   `replace_gate`; `visit_Parameter` = lookup by name + `param.validate(arg)`; `visit_NamedQubit` =
   `alias_from[filter_float(alias_index)]`, i.e. `Register.__getitem__` / `Parameter.__getitem__`, which
   build `NamedQubit(f"{array.name}[{index}]", array, index)` and so run `NamedQubit.__init__`'s checks);
-* `BlockStatement.__init__`'s check (`not subcircuit and iterations != 1` → `JaqalError`), which every
-  rebuilt block passes through.
+* `BlockStatement.__init__`'s checks (`not subcircuit and iterations != 1` → `JaqalError`; `_validate_count`: a float
+  count, or a constant / parameter of kind FLOAT → `JaqalError`) and `LoopStatement.__init__`'s (`_validate_count`),
+  which every rebuilt block / loop passes through.
 
 Recursion.  Python recurses `replace_gate → GateReplacer.visit(macro) → … → replace_gate`; with a macro
 table in which some macro reaches itself this never ends and CPython raises `RecursionError`.  The
@@ -137,9 +138,22 @@ def neq1 : Val → Bool
   | .flt d => !(d == { neg := false, mant := 1, exp := 0 })
   | _ => true
 
+/-- `_validate_count(count, …)` raises: a float, or a constant / parameter of kind FLOAT -/
+def badCount : Val → Bool
+  | .flt _ => true
+  | .const _ v => GateDef.constKind v == .float
+  | .param _ k => k == .float
+  | _ => false
+
 /-- `BlockStatement(parallel, subcircuit, iterations, statements)` -/
 def mkBlock (par sub : Bool) (it : Val) (body : List Stmt) : M Stmt :=
-  if !sub && neq1 it then .error (.jaqal "iterations-of-non-subcircuit") else pure (.block par sub it body)
+  if !sub && neq1 it then .error (.jaqal "iterations-of-non-subcircuit")
+  else if badCount it then .error (.jaqal "count-not-integer")
+  else pure (.block par sub it body)
+
+/-- `LoopStatement(iterations, statements)` -/
+def mkLoop (count : Val) (body : Stmt) : M Stmt :=
+  if badCount count then .error (.jaqal "count-not-integer") else pure (.loop count body)
 
 /-- the splice step of both `visit_BlockStatement`s -/
 def spliceInto (par : Bool) (new : Stmt) (rest : List Stmt) : List Stmt :=
@@ -168,7 +182,7 @@ mutual
     | .loop count body => do
       let c' ← substVal args count
       let b' ← replStmt call args body
-      pure (.loop c' b')
+      mkLoop c' b'
   def replList (call : Stmt → M Stmt) (args : List (String × Val)) (par : Bool) : List Stmt → M (List Stmt)
     | [] => pure []
     | s :: rest => do
@@ -200,7 +214,7 @@ mutual
       mkBlock par sub it stmts
     | .loop count body => do
       let b' ← expStmt call body
-      pure (.loop count b')
+      mkLoop count b'
   def expList (call : Stmt → M Stmt) (par : Bool) : List Stmt → M (List Stmt)
     | [] => pure []
     | s :: rest => do
